@@ -200,6 +200,17 @@ def enumerator_total(idx: ProgramIndex, rep: Report, rule: str, cls_name: str, m
     rep.add(rule, einst + "[yielded tuple]", enum.where, okb and bool(out_pos), "positions %s" % sorted(out_pos.items()) if okb else "; ".join(whyb), {})
     # (c) recursion over named_children
     rec_probs = _recursion(enum, first)
+    # (e) nothing but a memo test may end the walk of a module before its children are visited: an early `return` on the module's type
+    #     (`if not isinstance(module, Module): return`) skips every registration below plain torch containers (ModuleList of kernels)
+    for st in body_without_docstring(enum.node):
+        if isinstance(st, ast.For):
+            break
+        if isinstance(st, ast.If) and any(isinstance(x, ast.Return) for b_ in st.body for x in ast.walk(b_)):
+            parts = st.test.values if isinstance(st.test, ast.BoolOp) and isinstance(st.test.op, ast.Or) else [st.test]
+            for t_ in parts:
+                is_memo = isinstance(t_, ast.Compare) and len(t_.ops) == 1 and isinstance(t_.ops[0], ast.In) and isinstance(t_.comparators[0], ast.Name) and ("memo" in t_.comparators[0].id or "seen" in t_.comparators[0].id or "visited" in t_.comparators[0].id)
+                if not is_memo:
+                    rec_probs.append("the walk of a module ends early when `%s`: the children of such a module (kernels inside a torch ModuleList) are never visited" % " ".join(src(t_).split())[:60])
     rep.add(rule, einst + "[recursion]", enum.where, not rec_probs, "every named_children() member is visited and every item of the recursive call is re-yielded unchanged" if not rec_probs else "; ".join(rec_probs), {})
     return out_pos if okb else None
 
